@@ -41,6 +41,12 @@ class translate_interface:
         else:
             ctx.emit("translate-failed", structure, where)
             ctx.ghost.setdefault("c19_child_errors", []).append(value)
+        # ghost: what exactly was handed on (C05 reads the extra keyword arguments, e.g. target=)
+        ctx.ghost.setdefault("c05_translations", []).append({"structure": structure, "where": where, "kwargs": dict(kw.get("construct_kwargs") or {}), "outcome": outcome, "value": value})
+
+    def ensures(c, self, structure, where, result, **kw):
+        is_none = Z.is_none(_t(structure)) if hasattr(structure, "t") else z3.BoolVal(structure is None)     # a display is not None
+        return {"only-None-translates-to-None": c.Implies(c.Not(is_none), c.Not(Z.is_none(result.t)))}
 
     raises = {CE: lambda c, self, structure, where, exc, **kw: c.And(Z.is_strv(exc.where.t), z3.PrefixOf(sstr(where), sstr(exc.where)))}
                              # + see translate_interface_raises below (added after the class: needs the class for the second outcome)
@@ -69,6 +75,7 @@ def _factory_after(c, ctx, outcome, value, self, **rest):
 
 factory_call = amethod("factory", {"self": None, "*args": None, "**kw": None}, doc="an arbitrary callable with an arbitrary outcome (hypothesis: never a LOCATED ConfigurationError)",
                        result=ANYT, emits=_factory_emits, emits_after=_factory_after, has_events=True,
+                       ensures=lambda c, result, **k: {"hypothesis-a-factory-returns-an-object-not-None": c.Not(Z.is_none(result.t))},
                        raises={"BaseException": lambda c, exc, **k: _unlocated_or_foreign(c, exc)})
 Factory = TFn(factory_call)
 factory_call.params["self"] = Factory
@@ -110,6 +117,9 @@ class construct_interface:
     def emits_after(c, ctx, outcome, value, self, mapping, **rest):
         ctx.emit("constructed" if outcome == "return" else "construct-failed", self, value)
         ctx.ghost.setdefault("c19_construct_outcomes", []).append((outcome, value))
+
+    def ensures(c, self, mapping, result, **kw):
+        return {"a-constructed-object-is-not-None": c.Not(Z.is_none(result.t))}
 
     raises = {"BaseException": lambda c, self, mapping, exc, **kw: _unlocated_or_foreign(c, exc)}
 
@@ -158,6 +168,7 @@ def _mk_dict_shape(keys):
                 out["constructed-from-the-translated-items"] = c.And(*[_t(m[k]) == Event.e_c(c.event_at(i)) for i, k in enumerate(keys)]) if list(m) == list(keys) else False
                 out["extra-keyword-arguments-are-passed-on"] = (_t(kw["target"]) == _t(construct_kwargs["target"])) if list(kw) == ["target"] else False
                 out["the-result-is-what-construct-returned"] = result.t == Event.e_b(c.event_at(n + 1))
+                out["the-result-is-not-None"] = c.Not(Z.is_none(result.t))
             return out
 
         def _raise_clause(c, self, structure, where, construct_kwargs, exc):
@@ -232,7 +243,7 @@ def _mk_scalar(name, ty):
         result = TAny()
 
         def ensures(c, self, structure, where, construct_kwargs, result):
-            return {"unchanged": result.t == structure.t}
+            return {"unchanged": result.t == structure.t, "only-None-translates-to-None": c.Implies(c.Not(Z.is_none(structure.t)), c.Not(Z.is_none(result.t)))}
     return scalar_shape
 
 
@@ -282,6 +293,7 @@ def _mk_construct(keys, nargs, kwkeys):
             return {"one-lookup-then-one-call-with-args-positional-and-the-rest-as-keywords": shape._calls_ok(c, mapping, kwargs, True),
                     "the-result-is-what-the-factory-returned": (result.t == _t(outs[0][1])) if len(outs) == 1 and outs[0][0] == "return" else False,
                     "nothing-else-happens": c.n_events() == 3,
+                    "the-result-is-not-None": c.Not(Z.is_none(result.t)),
                     "the-mapping-given-is-not-modified": list(mapping) == list(keys) and (("__args__" not in keys) or len(mapping["__args__"]) == nargs)}
 
         def _raise(c, self, mapping, kwargs, exc):
